@@ -18,6 +18,9 @@ Usage-idiom kinds (always two contexts; event pulses only; `<x>` = flag | mailbo
   <x>_phold_a   producer:  await send_req; await x.is_clear(); if hold: await go;   x.set()/send(data); sent ^= True
   <x>_phold_b   producer:  if hold: await go;   await x.is_clear(); x.set()/send(data); sent ^= True
                 (the other side is a plain process: set/send while is_clear() resp. take while recv_rdy and is_set())
+  <x>_loop_a    producer coroutine that STARTS with `while True:`  x.set()/send(data); sent ^= True; await x.is_clear()
+  <x>_loop_c    the same with a trailing `continue` (upstream test_mailbox_02); the consumer is the plain process and
+                may stall (recv_rdy = 0) for any number of clocks
   with_r0..r4   consumer takes a SyncFlag-guarded payload signal through a helper coroutine whose body is
                 `async with flag:` with  r0 no return / r1 unconditional return / r2 conditional early return
                 (condition = environment input `discard`) / r3 return inside a nested if / r4 return in both branches.
@@ -43,6 +46,7 @@ from __future__ import annotations
 
 KINDS = ("flag", "flag_force", "mailbox", "flag_coro", "flag_with", "mailbox_coro")
 IDIOMS = tuple(f"{x}_{k}" for x in ("flag", "mailbox") for k in ("chold_a", "chold_b", "chold_c", "phold_a", "phold_b")) + \
+    ("flag_loop_a", "mailbox_loop_a", "mailbox_loop_c", "flag_loop_c") + \
     ("with_r0", "with_r1", "with_r1c", "with_r2", "with_r3", "with_r4",
      "with_w1", "with_w2", "with_f1", "with_f2", "with_n1", "with_n2", "with_a1")
 LOOP_IDIOMS = ("with_w1", "with_w2", "with_n1", "with_n2", "with_a1")   # discard2 = loop condition ("busy")
@@ -54,6 +58,10 @@ REC_FORMS = {"pos": "Pk(self.data[0], self.data[1])", "kw": "Pk(a=self.data[0], 
 REC_KINDS = tuple(f"mailbox_rec:{f}" for f in REC_FORMS) + ("mailbox_rec:kwrev_coro", "mailbox_rec:mix_coro")
 # two objects with delays whose producer ends share one context and whose consumer ends share another one;
 # object 0 has (tx, rx), object 1 has (rx, tx); each has its own requests and its own monitor
+# capitalised user names (SyncFlag(name="Req"), `with std.prefix("Link"):` around a Mailbox) and a third context that only
+# observes the object
+CAP_KINDS = ("flag_Cap", "mailbox_Cap")
+QUICK_CAP_DELAYS = [(0, 1), (1, 1), (1, 2), (2, 1), (0, 2), (4, 0), (0, 4), (4, 4)]
 PAIR_KINDS = ("pair_flag_flag", "pair_mailbox_flag", "pair_mailbox_mailbox")
 QUICK_PAIR_DELAYS = [(1, 1), (1, 2), (0, 1), (3, 1)]
 QUICK_REC_DELAYS = [(0, 0), (1, 1), (2, 1)]
@@ -116,6 +124,11 @@ def configs(thorough):
         for tx in range(dmax + 1):
             for rx in range(dmax + 1):
                 if thorough or (tx, rx) in QUICK_REC_DELAYS:
+                    out.append((kind, tx, rx, 2))
+    for kind in CAP_KINDS:
+        for tx in range(5):
+            for rx in range(5):
+                if thorough or (tx, rx) in QUICK_CAP_DELAYS:
                     out.append((kind, tx, rx, 2))
     for kind in PAIR_KINDS:
         for tx in range(dmax + 1):
@@ -294,6 +307,15 @@ def render_idiom(cfg):
 {ind(send, 12)}
 """
         body = prod + "\n" + plain_consumer
+    elif idiom in ("loop_a", "loop_c"):
+        cont = "                continue\n" if idiom == "loop_c" else ""
+        prod = f"""        @std.sequential(clk)
+        async def producer():
+            while True:
+{ind(send, 16)}
+                await x.is_clear()
+{cont}"""
+        body = prod + "\n" + plain_consumer
     elif idiom == "phold_b":
         prod = f"""        @std.sequential(clk)
         async def producer():
@@ -443,6 +465,21 @@ def render(cfg):
         return render_pair(cfg)
     kind, tx, rx, ctxs = cfg
     mb = is_mailbox(cfg)
+    if kind in CAP_KINDS:
+        base = "flag" if kind == "flag_Cap" else "mailbox"
+        src = _render_plain((base, tx, rx, 2))
+        kw = _kw(tx, rx)
+        if base == "flag":
+            src = src.replace(f"x = std.SyncFlag({kw})", "x = std.SyncFlag(" + ", ".join(a for a in ('name="Req"', kw) if a) + ")")
+        else:
+            src = src.replace(f"        x = std.Mailbox[BitVector[{DATA_W}]]({kw})",
+                              f"        with std.prefix(\"Link\"):\n            x = std.Mailbox[BitVector[{DATA_W}]]({kw})")
+        src = src.replace("    def architecture(self):", "    o_set = Port.output(Bit, default=False)\n\n    def architecture(self):")
+        return src + """
+        @std.sequential(clk)
+        def observer():
+            self.o_set <<= x.is_set()
+"""
     rec = kind.startswith("mailbox_rec:")
     if rec:
         src = _render_plain(cfg)
